@@ -8,6 +8,21 @@ from .model import AnalysisError, ClassInfo, FunctionInfo
 from .values import EMPTY, NOCONST, Guard, Obj, Val, join, join_all
 from .interp import Frame, CONTAINER_CLS, MAX_DEPTH
 
+def bump_obs(deps):
+    """A reward passed through the binarizer has been converted once more: ('obs', class, k) -> k + 1."""
+    out = set()
+    for d in deps:
+        if isinstance(d, tuple) and len(d) == 3 and d[0] == "obs":
+            out.add(("obs", d[1], min(d[2] + 1, 4)))
+        else:
+            out.add(d)
+    return frozenset(out)
+
+
+def strip_obs(deps):
+    return frozenset(d for d in deps if not (isinstance(d, tuple) and len(d) == 3 and d[0] == "obs"))
+
+
 def keys_deps(deps):
     """A value computed from the *keys* of a container depends on its key set, not on the values stored in it."""
     out = set()
@@ -334,7 +349,7 @@ class CallMixin:
             a = args[0]
             if a.extra is not None and a.extra[0] == "tuple":
                 return Val(const=len(a.extra[1]), deps=deps)
-            return Val(deps=deps, tags=["len"])
+            return Val(deps=strip_obs(deps), tags=["len"])
         if name == "callable" and args and args[0].has_const and args[0].const is None:
             return Val(const=False, deps=deps)
         if name == "bool" and args and args[0].has_const:
@@ -351,7 +366,10 @@ class CallMixin:
             fval = self.read_field(recv, name, quiet=True) if recv.aliases() else None
             if fval is not None and ({"callable", "forgotten"} & fval.tags or fval.locs):
                 # calling a function object held in a field (user supplied binarizer, evaluator, scaler ...)
-                res = Val(deps=deps | fval.deps, tags=["opaque-call"])
+                rdeps = deps | fval.deps
+                if name == "binarizer":
+                    rdeps = bump_obs(rdeps)
+                res = Val(deps=rdeps, tags=["opaque-call"])
                 self.emit("ext", node, name="<value>." + name, recv=recv, fval=fval, args=args, kwargs=kwargs,
                           starkw=starkw, result=res, spec={"ret": "fresh", "opaque": True})
                 return res
